@@ -575,6 +575,8 @@ def finish(pid, tier, results, t0, meta):
         'functions_under_contract': meta.get('functions', {}),
         'by_backend': by_backend,
         'solver_ms_total': sum(r.get('ms') or 0 for r in counted),
+        'slowest_obligations': [{'name': r['name'], 'ms': r.get('ms'), 'backend': r.get('backend')}
+                                for r in sorted(counted, key=lambda r: -(r.get('ms') or 0))[:8]],
         'undecided': [r['name'] for r in undecided],
         'known_findings': [{'id': f['id'], 'obligation': f['obligation'], 'residual': f['residual'],
                             'what': f['what']} for f, _ in known],
